@@ -73,7 +73,7 @@ def draw_gmm(n, loc, scale, pvals, random_state=None) -> Tuple[np.ndarray, np.nd
             if scale[k] <= 0:
                 raise ValueError(f"The {k}-th variance is negative.")
         for k in range(len(loc)):
-            X += [generator.normal(loc[k], scale[k], size=(n,))]
+            X += [generator.normal(loc[k], np.sqrt(scale[k]), size=(n,))]
     else:
         for k in range(K):
             if np.any(np.linalg.eigvals(scale[k]) < 0):
